@@ -15,7 +15,9 @@ TECH_E2 = TECH + "; plus MIR -> SMT-LIB2 lemmas over the 64-bit integer kernels 
 COMMON_NOTE = ("Assumes: sequential consistency (shim atomics ignore Ordering); schedule class S(d,b) of DESIGN.md section 4 "
                "(suspended operations resume in LIFO order, at most b operations start at preemption points); stated loop bounds with "
                "unwinding assertions on; whole-queue harnesses run with the memory manager replaced by never-reclaiming ledger stubs "
-               "(native replay uses the same stubs); futures 0.1 task layer and Mutex/Condvar are harness shims; Kani/CBMC soundness.")
+               "(native replay uses the same stubs); futures 0.1 task layer and Mutex/Condvar are harness shims; Kani/CBMC soundness. "
+               "A harness that hits its time or memory limit is reported as NOT-EXPLORED (evidence: not_explored) and counts neither as pass nor as violation; "
+               "counterexamples are replayed natively (pointer-check ones under valgrind memcheck) before they are reported.")
 
 TEXT = {
     "C01": ("Every harness decides, for ALL solver-chosen preemption sites / interfering operations / prefix lengths within its bounds, that "
@@ -35,7 +37,7 @@ TEXT = {
             "try_recv and try_recv_view paths, one sender (two senders: thorough); plus: the last two sender handles dropped concurrently (every site of one drop) while a futures stream task is parked - it must be notified, else the end is never reported.", "5 (C07)"),
     "C08": ("Blocking recv / recv_view as the preempted operation under BlockingWait, BusyWait and YieldingWait with small spin counts; the other threads run at "
             "every preemption point and inside the shim condvar wait; an exact stuck detector asserts no waiter is left blocked while a value it can take or the end is available; "
-            "E2 lemmas L5/L5n cover wait::check for all 64-bit values.", "4.1 (blocking operations), 5 (C08)"),
+            "first send of a sender that fell back from multi- to single-writer mode; E2 lemmas L5/L5n cover wait::check for all 64-bit values.", "4 (blocking operations), 5 (C08)"),
     "C09": ("Symbolic single-threaded histories (solver picks each call) over five alphabets run through the real handles and a reference model; every return value compared.", "5 (C09)"),
     "C10": ("add_stream as the preempted operation (sends, parent receives and a sibling handle of the parent stream receiving meanwhile) and two add_stream calls racing (forced-site loop); the new stream must deliver a gap-free suffix starting "
             "at a position its parent held during the call; parent and other streams keep values and backpressure. The producer-preempted-by-add_stream direction does not finish here (thorough, not explored).", "5 (C10)"),
@@ -50,7 +52,7 @@ TEXT = {
     "C16": ("The REAL MemoryManager and ReadCursor driven in the queue's announce/scan/retire pattern with 20 pre-loaded retirements so reclamation cycles run; CBMC pointer checks (use after free, double free, bounds) are the oracle; "
             "an idle registered token must block reclamation.", "5 (C16)"),
     "C17": ("Whole-queue teardown with the REAL memory manager and allocation counters on alloc::allocate/deallocate: after the last handle is dropped (solver-chosen order) every allocation must be returned.", "5 (C17)"),
-    "C18": ("Every injected try_send/try_recv/try_recv_view runs alone while the preempted operation is frozen at a solver-chosen shared access: its own shim-step count is bounded (<= 96) and the queue's retry loops carry unwinding assertions.", "5 (C18)"),
+    "C18": ("Every injected try_send/try_recv/try_recv_view runs alone while the preempted operation is frozen at a solver-chosen shared access: its own shim-step count is bounded (<= 96) and the queue's retry loops carry unwinding assertions; incl. a producer in the multi-writer claim loop reaching a slot pinned by a consumer frozen inside clone().", "5 (C18)"),
 }
 
 NA = {
